@@ -30,3 +30,17 @@ Proof. split; [reflexivity|]. cbv. repeat split. auto. Qed.
 
 Lemma backend_is_flock : filelock_backend_is_flock = true.
 Proof. reflexivity. Qed.
+
+(* after a failed Truncate the lock is given up only on the path that returns the error (regular
+   files); for other files the error is ignored and the File is returned still locked *)
+Lemma truncate_error_keeps_lock : truncate_unlock_inside_regular_check = true.
+Proof. reflexivity. Qed.
+
+(* a failing open is what the call returns: no second attempt with other flags, no lock *)
+Lemma open_error_is_returned fl b i c plan s s' :
+  os_step i c (OOpen (strip fl openfile_strip_mask)) (plan 0) false s = Some (RErr, s') ->
+  run_seq i c (client_prog fl b) plan 0 s =
+  ([(OOpen (strip fl openfile_strip_mask), RErr)], Finished ResErr, s').
+Proof.
+  intros H. unfold client_prog, open_file_prog. cbn [run_seq]. rewrite H. reflexivity.
+Qed.
